@@ -8,6 +8,7 @@ import (
 
 	"verif/mc"
 	"verif/report"
+	"verif/rt"
 )
 
 // Budget returns the time budget of a run: VERIF_BUDGET_S or the tier default.
@@ -88,7 +89,7 @@ var c01Letters = []string{
 // RunC01 decides C01 at the RIB tier.
 func RunC01(rep *report.Report, tier string) {
 	depth := 4
-	ck := NewClock(tier, 100*time.Second, 20*time.Minute, 5)
+	ck := NewClock(tier, 100*time.Second, 20*time.Minute, 6)
 	if tier == "thorough" {
 		depth = 6
 	}
@@ -102,6 +103,10 @@ func RunC01(rep *report.Report, tier string) {
 		o := &Options{Letters: letters, Checks: Checks{Fold: true}, Init: Alphabet(ribInits[name]...)}
 		Search(rep, "rib/from-"+name, o, depth-1, ck.Next())
 	}
+	rt.MapOrder = 1 // descending iteration order of every map of the instrumented packages (held-operation walk)
+	o := &Options{Letters: letters, Checks: Checks{Fold: true}, Init: Alphabet(ribInits["held-operations"]...)}
+	Search(rep, "rib/from-held-operations/descending-map-order", o, depth-1, ck.Next())
+	rt.MapOrder = 0
 }
 
 // ribInits are non-initial start states shared by the RIB-tier searches.
@@ -130,7 +135,7 @@ var c02Graphs = map[string][]string{
 // RunC02 decides C02 at the RIB tier.
 func RunC02(rep *report.Report, tier string) {
 	depth, maxGraph := 4, 7
-	ck := NewClock(tier, 100*time.Second, 20*time.Minute, 12)
+	ck := NewClock(tier, 100*time.Second, 20*time.Minute, 15)
 	if tier == "thorough" {
 		depth, maxGraph = 6, 7
 	}
@@ -154,6 +159,23 @@ func RunC02(rep *report.Report, tier string) {
 			Merge(rep, fmt.Sprintf("arrival-orders/%s/forward-refs-%v", g, !nofwd), res, len(ls))
 		}
 	}
+	// the same arrival orders with the held-operation walk (and every other map iteration of the instrumented
+	// packages) in DESCENDING key order: the oracle accepts any walk order, the implementation must too
+	rt.MapOrder = 1
+	for _, g := range []string{"G2", "G4", "G5"} {
+		ls := c02Graphs[g]
+		o := &Options{Letters: Alphabet(ls...), Checks: Checks{Resolve: true, Fold: true}}
+		res := mc.BFS(mc.Config{Letters: ls, New: New(o), MaxDepth: len(ls), Deadline: ck.Next(), Enabled: func(h []int, l int) bool {
+			for _, x := range h {
+				if x == l {
+					return false
+				}
+			}
+			return true
+		}})
+		Merge(rep, fmt.Sprintf("arrival-orders/%s/forward-refs-true/descending-map-order", g), res, len(ls))
+	}
+	rt.MapOrder = 0
 	for _, nofwd := range []bool{false, true} {
 		o := &Options{Letters: letters, NoFwdRefs: nofwd, Checks: Checks{Resolve: true, Fold: true}}
 		Search(rep, fmt.Sprintf("mixed/forward-refs-%v", !nofwd), o, depth, ck.Next())
